@@ -28,6 +28,12 @@ def residual_nnls(matrix: ArrayLike, data: ArrayLike) -> tuple[ArrayLike, ArrayL
     tuple[ArrayLike, ArrayLike]
         The clps and the residual.
     """
-    clp, _ = nnls(matrix, data)
+    # scipy's nnls stops on an absolute tolerance: solve the problem normalised to unit column
+    # and data norms so that the solution does not depend on the scale of matrix and data
+    column_norms = np.linalg.norm(matrix, axis=0)
+    column_norms[column_norms == 0] = 1
+    data_norm = np.linalg.norm(data) or 1.0
+    clp, _ = nnls(matrix / column_norms, data / data_norm)
+    clp *= data_norm / column_norms
     residual = data - np.dot(matrix, clp)
     return clp, residual
